@@ -126,6 +126,8 @@ func (kr *kindRules) add(rule string, f *ssa.Function, sub, pos string, st Statu
 // a floating-point verb / strconv.FormatFloat prints IEEE negative zero as "-0" (and
 // %v, %g, %e switch to exponent form from 1e21 / 2^21 on), so the same voxel gets a
 // second spelling that string-based sets and comparisons treat as another voxel.
+var constVertID = regexp.MustCompile(`^-?[0-9]+/-?[0-9]+$`)
+
 var fmtVerb = regexp.MustCompile(`%[-+# 0-9.]*[a-zA-Z]`)
 
 func (kr *kindRules) floatText(w *World, f *ssa.Function, x *ssa.Call, pos string, ord map[string]int) {
@@ -318,6 +320,41 @@ func (kr *kindRules) scan(w *World, f *ssa.Function) {
 			kr.roundConvert(w, f, x, pos, roundOrd)
 		}
 	})
+	// CONST-VERT: a constant "zoom/index" text returned by a function that receives an
+	// altitude or a vertical index, on a branch that does not look at that argument: the
+	// vertical axis is unbounded at every zoom (also at zoom 0), so no single vertical ID is
+	// right for all altitudes
+	for pi, p := range f.Params {
+		pa := ke.Eval(p)
+		if pa == nil || pa.Scalar == 0 || pa.Scalar&^ks(kALT, kF, kTZ) != 0 {
+			continue
+		}
+		for _, ret := range returnsOf(f) {
+			for _, rv := range ret.Results {
+				cs, ok := constString(rv)
+				if !ok || !constVertID.MatchString(cs) {
+					continue
+				}
+				depends := false
+				for _, blk := range f.Blocks {
+					t, fl, ifi := ifSuccs(blk)
+					if ifi == nil {
+						continue
+					}
+					for _, sx := range []*ssa.BasicBlock{t, fl} {
+						if (sx == ret.Block() && len(sx.Preds) == 1) || blockDominatedByEdge(f, blk, sx, ret.Block()) {
+							if dependsOn(w, ifi.Cond, p, 0, map[ssa.Value]bool{}) {
+								depends = true
+							}
+						}
+					}
+				}
+				if !depends {
+					kr.add("ROUND", f, fmt.Sprintf("constant vertical ID %q", cs), w.Pos(ret.Pos()), Violated, fmt.Sprintf("the vertical ID %q is returned as a constant on a branch that does not depend on %s (parameter #%d, kind %s): the vertical index is floor(alt / cell) at every zoom, negative below the origin", cs, p.Name(), pi, pa.Scalar))
+				}
+			}
+		}
+	}
 	// declared result layouts
 	if fr := ke.roles[f]; fr != nil && len(fr.Results) > 0 {
 		rs := ke.retAV[f]
